@@ -106,6 +106,14 @@ Definition udot (a b : list F) : F := usum o (map2 (fun x y => x * y) a b).
 (* x.dot(&params) + intercept  (Array2 . Array1: one unrolled_dot per row, then + scalar) *)
 Definition lin_pred (X : list (list F)) (w : list F) (b : F) : list F := map (fun x => udot x w + b) X.
 
+(* ndarray's 1-d dot (dot_generic) takes unrolled_dot only when BOTH operands are contiguous slices
+   (`as_slice()`); a row of a column-major, column-reversed or column-strided matrix is not, and is
+   folded sequentially: sum = sum + a[i] * b[i] from zero *)
+Definition sdot (a b : list F) : F := fold_left (fun acc xy => acc + fst xy * snd xy) (combine a b) (zero o).
+Definition ldot (contig : bool) (a b : list F) : F := if contig then udot a b else sdot a b.
+Definition lin_pred_l (contig : bool) (X : list (list F)) (w : list F) (b : F) : list F :=
+  map (fun x => ldot contig x w + b) X.
+
 (* logistic(z) = 1 / (1 + exp(-z)); [e] is the value of exp(-z) *)
 Definition logistic_of_exp (e : F) : F := one o / (one o + e).
 Definition neg_arg (z : F) : F := opp o z.
